@@ -1138,9 +1138,10 @@ class RequestBodyStream(Stream):
 CHECK = Check(
     prop="C09",
     gen=["InputStream", "InputStreamFacts", "PyFns_Internal", "PyFns_Length"],
-    modules=["WzVerif.Props.C09", "WzVerif.Props.C09T"],
+    modules=["WzVerif.Props.C09", "WzVerif.Props.C09T", "WzVerif.Props.C09T2"],
     streams=[ReadsStream(), WrappedStream(), ChoiceStream(), RequestBodyStream(), PreludeKernels()],
     assumptions=[
+        "C09T2 (LimitedStream methods as regenerated from the source): the wrapped stream is the model's scripted LS.Under (one scripted outcome per call; hasattr(_stream, 'readinto') is a parameter); RawIOBase.read(n) (C code: bytearray(n), readinto, slice) is the hand-written glue ls_raw_read; the while loop of readall runs on fuel (limit - pos + 1 suffices and is needed: ls_readall_fuel_sharp)",
         "the underlying wsgi.input is a well-behaved binary stream: read(n)/readinto(b) return at most the requested number of bytes, or raise OSError/ValueError; other exception classes raised by the server's stream propagate unchanged and are outside the model",
         "CPython's RawIOBase.read / IOBase.readline / readlines / __next__ are modelled by thin definitions on top of readinto (validated by stream reads, not verified)",
         "io.BufferedReader and io.TextIOWrapper are not modelled: they are treated as arbitrary callers of LimitedStream.readinto/readall (the theorems hold for every call sequence); stream wrapped replays the call sequence they actually issue (read, read1, peek, readline, readlines, readinto, iteration) and the property oracle checks what they return. Recorded assumption of theorem wrapper_yields_prefix, checked on every case of stream wrapped: a buffering wrapper hands its caller only bytes that LimitedStream's reads returned to it, in order",
